@@ -94,6 +94,10 @@ class ShapeV:
         if op == "Add" and isinstance(other, ShapeV):
             a, b = (other, self) if reflected else (self, other)
             return ShapeV(sconcat(a.term, b.term))
+        if op == "Add" and isinstance(other, tuple) and len(other) == 1 and not reflected:
+            sv = ShapeV(sconcat(self.term, shape1(other[0])))
+            sv.rowshape = (self.term, other[0])
+            return sv
         return NotImplemented
 
 
@@ -361,12 +365,24 @@ class ExpMat:
             return MonoRow(self.row(idx), self.D)
         raise U("exponent matrix indexing", node)
 
+    def sx_compare(self, ex, op, other, node, reflected):
+        if op == "Eq" and isinstance(other, int) and other == 0:
+            return RowsAllZero(self)
+        return NotImplemented
+
     def sx_method(self, ex, attr, args, kw, node):
         if attr == "copy":
             return ExpMat(self.n, self.D, self._row, Region("fresh"), self.dtype)
         if attr == "tolist":
             return V.Seq(self.n, lambda t: MonoRow(self.row(t), self.D))
         raise U(f"exponents.{attr}", node)
+
+
+class RowsAllZero:
+    """`exponents == 0`: boolean matrix; only its row-wise `all` is modelled."""
+
+    def __init__(self, mat):
+        self.mat = mat
 
 
 class MonoRow:
@@ -397,6 +413,91 @@ class MonoRow:
 
     def sx_iter(self, ex):
         return None
+
+
+mono_zero = z3.Const("mono_zero", Mono)
+
+
+def mono_axioms(ctx):
+    d, D = z3.Int(ctx.fresh("d")), z3.Int(ctx.fresh("D"))
+    m = z3.Const(ctx.fresh("m"), Mono)
+    from .sortmodel import meq
+    m2 = z3.Const(ctx.fresh("m"), Mono)
+    return [z3.ForAll([m, m2, D], z3.Implies(z3.And(mzero(m, D), mzero(m2, D)), meq(m, m2, D))),
+            z3.ForAll([d], expo(mono_zero, d) == 0),
+            z3.ForAll([D], mzero(mono_zero, D)),
+            # a row is all-zero iff each of its D entries is zero
+            z3.ForAll([m, D, d], z3.Implies(z3.And(mzero(m, D), 0 <= d, d < D), expo(m, d) == 0))]
+
+
+class RowArr:
+    """Integer array of shape S + (D,): one exponent row per position of S."""
+
+    def __init__(self, shape, D, rowelem, region=None):
+        self.shape, self.D, self._rowelem = shape, D, rowelem
+        self.region = region or Region("fresh")
+
+    def rowelem(self, i):
+        return self._rowelem(i)
+
+    def sx_isinstance(self, ex, name):
+        return name == "numpy.ndarray"
+
+    def sx_getattr(self, ex, attr, node):
+        if attr == "shape":
+            sv = ShapeV(sconcat(self.shape, shape1(self.D)))
+            sv.rowshape = (self.shape, self.D)
+            return sv
+        if attr == "size":
+            return size(self.shape) * self.D
+        return V.BoundMethod(self, attr)
+
+    def sx_method(self, ex, attr, args, kw, node):
+        if attr == "reshape" and len(args) == 1 and isinstance(args[0], ShapeV) and getattr(args[0], "rowshape", None):
+            S, D = args[0].rowshape
+            site = ex.site("reshape")
+            ex.oblige(f"pre({site}).same_size", z3.And(size(S) == size(self.shape), D == self.D), "precondition", node)
+            same = simplify_bool(S == self.shape)
+            if same is True:
+                return RowArr(S, D, self._rowelem, self.region)
+            # reshape of the raveled layout back to the original shape
+            if getattr(self, "raveled_from", None) is not None and simplify_bool(self.raveled_from == S) is True:
+                f = self._rowelem
+                return RowArr(S, D, lambda i: f(ravel_idx(i, S)), self.region)
+            raise U("reshape of a row array to an unrelated shape", node)
+        raise U(f"rowarray.{attr}", node)
+
+    def sx_setitem(self, ex, idx, value, node):
+        if isinstance(idx, Arr) and idx.kind == "bool" and isinstance(value, MonoRow):
+            frame_check(ex, self.region, node)
+            site = ex.site("mask_assign")
+            ex.oblige(f"pre({site}).mask_shape", idx.shape == self.shape, "precondition", node)
+            ex.oblige(f"pre({site}).row_width", value.D == self.D, "precondition", node)
+            mask, old, m = _freeze(idx), self._rowelem, value.m
+            self._rowelem = lambda i: z3.If(mask(i), m, old(i))
+            return
+        raise U("row array item assignment", node)
+
+
+class BoolVec:
+    """1-d boolean array of length n."""
+
+    def __init__(self, n, at):
+        self.n, self.at = n, at
+
+    def sx_len(self, ex):
+        return self.n
+
+    def sx_seq(self, ex):
+        return V.Seq(self.n, lambda k: self.at(k))
+
+    def sx_iter(self, ex):
+        return None
+
+    def sx_binop(self, ex, op, other, node, reflected):
+        if op == "BitXor" and other is True:
+            return BoolVec(self.n, lambda k: z3.Not(self.at(k)))
+        return NotImplemented
 
 
 # ------------------------------------------------------------------ polynomial arrays
@@ -614,6 +715,9 @@ def install(reg):
             if not isinstance(shp, ShapeV):
                 raise U(f"numpy.{name} with non-symbolic shape", node)
             dt = kw.get("dtype", args[1] if len(args) > 1 else None)
+            if getattr(shp, "rowshape", None) and value == 0:
+                S, D = shp.rowshape
+                return RowArr(S, D, lambda i: mono_zero)
             dtt = as_dtype(ex, dt, node) if dt is not None else dt_float
             isb = simplify_bool(dtt == dt_bool) is True
             v = z3.BoolVal(bool(value)) if isb else z3.RealVal(value)
@@ -621,6 +725,18 @@ def install(reg):
 
     creation("ones", 1, None)
     creation("zeros", 0, None)
+
+    @ax("numpy.array")
+    def array(ex, args, kw, node):
+        a = args[0]
+        if isinstance(a, Arr) and not kw and len(args) == 1:
+            return Arr(a.shape, _freeze(a), a.kind, a.dtype, Region("fresh"), a._init)
+        if isinstance(a, IntVec) and not kw:
+            return IntVec(a.n, a.at, "fresh")
+        if isinstance(a, list) and not a and not kw:
+            e = Arr(shape1(z3.IntVal(0)), lambda i: z3.RealVal(0), "real", dt_float, Region("fresh"))
+            return e
+        raise U("numpy.array of this value", node)
 
     @ax("numpy.asarray")
     def asarray(ex, args, kw, node):
@@ -636,15 +752,51 @@ def install(reg):
         a = args[0]
         if isinstance(a, MonoRow) and len(args) == 1 and not kw:
             return z3.Not(mzero(a.m, a.D))
+        if isinstance(a, BoolVec) and len(args) == 1 and not kw:
+            return z3.Not(ex.ctx.forall_range(0, a.n, lambda t: z3.Not(a.at(t))))
         if isinstance(a, Arr) and len(args) == 1 and not kw:
             i = z3.Const(ex.ctx.fresh("i"), Idx)
             nz = (a.elem(i) != 0) if a.kind != "bool" else a.elem(i)
             return z3.Exists([i], z3.And(inshape(i, a.shape), nz))
         raise U("numpy.any of this value", node)
 
+    @ax("numpy.argwhere")
+    def argwhere(ex, args, kw, node):
+        a = args[0]
+        if isinstance(a, BoolVec):
+            return ArgWhere(a)
+        raise U("numpy.argwhere of this value", node)
+
     @ax("numpy.all")
     def all_(ex, args, kw, node):
         a = args[0]
+        if isinstance(a, RowsAllZero) and (args[1:] == [-1] or kw.get("axis") == -1):
+            m = a.mat
+            return BoolVec(m.n, lambda t: mzero(m.row(t), m.D))
         if isinstance(a, Arr) and len(args) == 1 and not kw:
             return ex.ctx.forall_idx(lambda i: (a.elem(i) != 0) if a.kind != "bool" else a.elem(i), a.shape)
         raise U("numpy.all of this value", node)
+
+
+class ArgWhere:
+    """numpy.argwhere(boolean vector): only `.item()` (exactly one true entry) is modelled."""
+
+    def __init__(self, vec):
+        self.vec = vec
+
+    def sx_getattr(self, ex, attr, node):
+        return V.BoundMethod(self, attr)
+
+    def sx_method(self, ex, attr, args, kw, node):
+        if attr == "item" and not args:
+            v = self.vec
+            ctx = ex.ctx
+            site = ex.site("argwhere_item")
+            ex.oblige(f"pre({site}).at_least_one", z3.Not(ctx.forall_range(0, v.n, lambda t: z3.Not(v.at(t)))),
+                      "precondition", node)
+            ex.oblige(f"pre({site}).at_most_one", ctx.forall_range2(0, v.n, lambda t, u: z3.Not(z3.And(v.at(t), v.at(u)))),
+                      "precondition", node, note=".item() needs exactly one element")
+            idx = ctx.int("argwhere")
+            ctx.assume(z3.And(0 <= idx, idx < v.n, v.at(idx)))
+            return idx
+        raise U(f"argwhere.{attr}", node)
